@@ -37,6 +37,9 @@ def import_repo() -> None:
     """Put the tree under test first on sys.path and assert a816 comes from it."""
     if sys.path[0] != REPO:
         sys.path.insert(0, REPO)
+    from . import blocking
+
+    blocking.install()  # before the tree under test creates its module-level locks
     import a816  # noqa: F401
     import a816.cli  # noqa: F401
     import a816.program  # noqa: F401
